@@ -71,7 +71,8 @@ def generate(rng, tier, idx):
     return {'table': table, 'type': rng.choice(['center', 'direct', 'regular']),
             'trunc': rng.randint(1, d), 'poisons': [a, b], 'pseed': rng.randrange(1000),
             'seed': zoo.rand_seedspec(rng, allow_none=True), 'g0': rng.randrange(2**31),
-            'points': pts, 'ops': [{'op': 'sample', 'n': n} for n in samples]}
+            'points': pts, 'ops': [{'op': 'sample', 'n': n} for n in samples],
+            'prefit': rng.random() < 0.3, 'prefit_trunc': rng.randint(1, d)}
 
 
 def simplify(run):
@@ -307,9 +308,15 @@ def execute(run):
     d = df.shape[1]
     p0, p1 = run['poisons']
     seed = zoo.make_seed(run.get('seed'))
-    vine, out = vinelib.fit_vine(run['type'], run['trunc'], df, p0, run['pseed'], seed=seed)
+    prefit = None
+    if run.get('prefit'):
+        prefit = (vinelib.prefit_table(run['table']), run.get('prefit_trunc', 2))
+        ctx.probes['second_fit_of_a_live_vine'] += 1
+    vine, out = vinelib.fit_vine(run['type'], run['trunc'], df, p0, run['pseed'], seed=seed,
+                                 prefit=prefit)
     ctx.faults['F3_allocator_garbage:' + p0] += 1
-    cond = {'vine_type': run['type'], 'd': d, 'truncated': run['trunc']}
+    cond = {'vine_type': run['type'], 'd': d, 'truncated': run['trunc'],
+            'refit': prefit is not None}
     if out[0] != 'ok':
         ctx.probes['fit_raised:' + outcome_class(out)] += 1
         ctx.event('fit', outcome_class(out))
